@@ -285,6 +285,70 @@ def PtrVal.words (p : PtrVal) : Nat :=
   | .none => 1
   | _ => 2
 
+/-! ### Values: what a dereference reads and what the release destructs -/
+
+/-- Number of value tokens a value of the allocated type consists of: one per struct, one per
+    element / byte, none for a zero-sized value. -/
+def Target.elemCount : Target → Nat
+  | .sized | .dyn => 1
+  | .array n | .slice n | .str n => n
+  | .zst _ | .zcached _ _ => 0
+
+/-- A block with its contents: the allocation, the type the value was *constructed* as (`tyTag`),
+    its value tokens, and the drop glue `GcPtr::alloc` wrote into the header's vtable
+    (`VtableFor::<T, ..>::VTABLE.drop_value`) — the constructed type's.  `apply` takes only the
+    `Alloc`: no conversion can read or write `glue`, `tyTag` or `tokens`. -/
+structure Stored where
+  alloc : Alloc
+  tyTag : Nat
+  tokens : List Nat
+  glue : Nat
+  deriving DecidableEq, Repr
+
+/-- The allocating call: the header's drop glue is that of the constructed type. -/
+def store (a : Alloc) (tyTag : Nat) (tokens : List Nat) : Stored := ⟨a, tyTag, tokens, tyTag⟩
+
+/-- What a dereference yields. -/
+inductive View where
+  /-- `&T` of the allocated type: its type and the value tokens visible through the pointer -/
+  | whole (tyTag : Nat) (tokens : List Nat)
+  /-- `&()` -/
+  | unit
+  /-- `&dyn Tr` whose vtable is the constructed type's: method calls read that value -/
+  | dynOf (tyTag : Nat) (tokens : List Nat)
+  /-- `&[E]` obtained by unsizing an array -/
+  | sliceOf (tokens : List Nat)
+  deriving DecidableEq, Repr
+
+/-- `Deref for Gc<T, K>`: the reference is built from the stored address and the metadata
+    `as_ptr` reports (`derefMeta`); a length `n` makes exactly the first `n` elements visible.
+    `none`: a weak pointer (no `Deref`), a pointer that does not point at the value, or metadata
+    that does not fit the static type. -/
+def deref (s : Stored) (p : PtrVal) : Option View :=
+  if p.weak || p.obj != s.alloc.id || p.off != 0 then none else
+  match p.ty, derefMeta s.alloc.target p with
+  | .unit, _ => some .unit
+  | .orig, .len n => some (.whole s.tyTag (s.tokens.take n))
+  | .orig, .none => some (.whole s.tyTag s.tokens)
+  | .orig, .vtable => none
+  | .uns, .len n => some (.sliceOf (s.tokens.take n))
+  | .uns, .vtable => some (.dynOf s.tyTag s.tokens)
+  | .uns, .none => none
+
+/-- The view of the whole original value at static type `ty`. -/
+def fullView (s : Stored) : Ty → View
+  | .unit => .unit
+  | .orig => .whole s.tyTag s.tokens
+  | .uns => match s.alloc.target with
+    | .array _ => .sliceOf s.tokens
+    | _ => .dynOf s.tyTag s.tokens
+
+/-- The release of a block (`sweep_one` / `DropAll`): if the value is live, the drop glue found
+    in the header runs on the value.  Returns the block afterwards and what ran: (glue, tokens). -/
+def destruct (s : Stored) : Stored × Option (Nat × List Nat) :=
+  if s.alloc.live then ({ s with alloc := { s.alloc with live := false } }, some (s.glue, s.tokens))
+  else (s, none)
+
 /-! ### All well-typed chains, in the order shared with the harness -/
 
 /-- All well-typed chains of length exactly `n` from `p` (steps in `Step.all` order, depth
